@@ -86,7 +86,7 @@ class MirFn:
     __slots__ = ('name', 'kind', 'params', 'ret', 'types', 'blocks', 'text', 'closure_ty', 'simple_const', 'key', 'hash', '_parsed')
 
     def __init__(self):
-        self.types = {}; self.blocks = {}; self.params = []; self.closure_ty = None; self.simple_const = None; self._parsed = {}
+        self.types = {}; self.blocks = {}; self.params = []; self.closure_ty = None; self.simple_const = None; self._parsed = {}; self.key = None; self.kind = None; self.name = None; self.ret = None
 
     def __repr__(self):
         return 'MirFn(%s)' % self.name
@@ -147,10 +147,15 @@ class Program:
                 if m: f.closure_ty = m.group(0)
         else:
             f.kind = 'const'
-            m = re.match(r'(?:const|static)(?: mut)? (.*?): (.*?) = (.*)$', head)
+            h2 = re.sub(r'^(?:const|static)(?: mut)? ', '', head)
+            k0 = 0
+            if '<impl at' in h2:
+                k0 = h2.index('>', h2.index('<impl at'))
+            k1 = h2.find(': ', k0)
+            m = re.match(r'(.*?) = (.*)$', h2[k1 + 2:]) if k1 >= 0 else None
             if not m:
                 return
-            f.name, f.ret, rest = m.group(1), m.group(2), m.group(3)
+            f.name, f.ret, rest = h2[:k1], m.group(1), m.group(2)
             if not rest.rstrip().endswith('{'):
                 f.simple_const = rest.rstrip().rstrip(';')
         cur = None
@@ -195,9 +200,12 @@ class Program:
         m = re.match(r'(.*?)\s+for\s+(.*)$', h)
 
         def base(t):
-            t = t.strip().lstrip('&').strip()
+            t = t.strip()
+            amp = '&' if t.startswith('&') else ''
+            t = t.lstrip('&').strip()
+            t = re.sub(r"^'\w+ ", '', t)
             t = re.sub(r'^mut ', '', t)
-            return re.sub(r'<.*$', '', t).split('::')[-1].strip()
+            return amp + re.sub(r'<.*$', '', t).split('::')[-1].strip()
         if m:
             return ('trait', base(m.group(1)), base(m.group(2)), m.group(1).strip(), m.group(2).strip())
         return ('inherent', base(h))
@@ -235,7 +243,7 @@ class Program:
         """remove ::<...> turbofish groups and <...> type arguments from a path"""
         out = []; i = 0
         while i < len(path):
-            if path.startswith('::<', i):
+            if path.startswith('::<', i) and not path.startswith('::<impl ', i):
                 i = match_close(path, i + 2) + 1; continue
             out.append(path[i]); i += 1
         return ''.join(out)
@@ -263,3 +271,35 @@ class Program:
             if cand in self.items and self.items[cand].kind == 'const':
                 return self.items[cand]
         raise KeyError('const ' + opname)
+
+
+def layouts(src_dir=None):
+    """struct field orders and enum variant orders parsed from the crate's source (needed because MIR prints
+    field accesses by index and struct literals by name)"""
+    src_dir = src_dir or os.path.join(CRATE, 'src')
+    structs, enums = {}, {}
+    for fn in sorted(os.listdir(src_dir)):
+        if not fn.endswith('.rs'):
+            continue
+        txt = open(os.path.join(src_dir, fn)).read()
+        txt = re.sub(r'//[^\n]*', '', txt)
+        for m in re.finditer(r'\bstruct\s+(\w+)\s*(?:<[^>{]*>)?\s*(?:where[^{]*)?\{', txt):
+            j = match_close(txt, m.end() - 1)
+            body = txt[m.end():j]
+            fields = []
+            for part in split_top(body):
+                part = re.sub(r'#\[[^\]]*\]', '', part).strip()
+                mm = re.match(r'(?:pub(?:\([^)]*\))?\s+)?(\w+)\s*:', part)
+                if mm: fields.append(mm.group(1))
+            structs.setdefault(m.group(1), fields)
+        for m in re.finditer(r'\benum\s+(\w+)\s*(?:<[^>{]*>)?\s*\{', txt):
+            j = match_close(txt, m.end() - 1)
+            body = txt[m.end():j]
+            vs = []
+            for part in split_top(body):
+                part = re.sub(r'#\[[^\]]*\]', '', part).strip()
+                mm = re.match(r'(\w+)', part)
+                if mm: vs.append(mm.group(1))
+            enums.setdefault(m.group(1), vs)
+    enums.setdefault('ControlFlow', ['Continue', 'Break'])
+    return {'structs': structs, 'enums': enums}
